@@ -8,7 +8,8 @@ any prefix (C18).  Ported from the control flow of `Font.save` (Lib/defcon/objec
     and only at the end the listing (`writeContents`);
   * a save-as over an existing destination goes through a temporary directory; when everything
     is written the destination is put aside, the temporary UFO moved in, and what was put aside
-    dropped; when the temporary UFO cannot be moved in, the destination is put back (`except`);
+    dropped; when the temporary UFO cannot be moved in, whatever part of it arrived is removed and
+    the destination is put back (`except`);
   * `finally` removes the temporary directories; path, format, structure and the font's dirty flag
     are assigned only after all steps succeeded.
 
@@ -140,11 +141,14 @@ def finalize (m : Mode) (w : World) : World :=
     | .saveAsOver p => p
   { w with font := { w.font with path := p, dirty := false } }
 
-/-- the `except` clause of the final replace: a destination that was put aside and whose place is
-still empty (the new UFO could not be moved in) is put back -/
+/-- the `except` clause of the final replace (it guards the move of the new UFO onto the destination):
+whatever part of the new UFO arrived at the destination is removed and the destination that was put
+aside is put back (`store` replaces what lies at `p`).  The kinds of what arrived and of what is put
+back — directory or regular file — matter to the calls that do this; that level is M-Replace
+(`DefconModel/Replace.lean`). -/
 def recover (m : Mode) (w : World) : World :=
   match m, w.aside with
-  | .saveAsOver p, some u => if (lookup w.disk p).isNone then { w with disk := store w.disk p u } else w
+  | .saveAsOver p, some u => { w with disk := store w.disk p u }
   | _, _ => w
 
 /-- the `finally` clauses (both temporary directories go) -/
@@ -155,6 +159,13 @@ def runSteps (m : Mode) (w : World) (steps : List Step) : World := steps.foldl (
 /-- a save that fails right before step number `k` (0-based) of its plan -/
 def failAt (m : Mode) (w : World) (k : Nat) : World :=
   cleanup (recover m (runSteps m w ((plan w.font m).take k)))
+
+/-- a save over `p` whose final move is TORN: everything is written, the destination is put aside, and
+the move of the temporary UFO fails after `part` of it has arrived at the destination -/
+def failTorn (p : Nat) (w : World) (part : Ufo) : World :=
+  let steps := plan w.font (.saveAsOver p)
+  let w1 := runSteps (.saveAsOver p) w (steps.take (steps.length - 2))
+  cleanup (recover (.saveAsOver p) { w1 with disk := store w1.disk p part })
 
 /-- a save that succeeds -/
 def save (m : Mode) (w : World) : World :=
